@@ -1,6 +1,7 @@
 package core
 
 import (
+	"encoding/json"
 	"fmt"
 	"strings"
 	"testing"
@@ -86,7 +87,8 @@ func TestC02Match(t *testing.T) {
 	authors := gen.Pubkeys(3)
 	rapid.Check(t, func(t *rapid.T) {
 		// timestamps around 100, or around 0 (boundary: since/until 0, negative created_at)
-		c02TsBase = rapid.SampledFrom([]int64{100, 100, -2, 0}).Draw(t, "tsbase")
+		// ... or around 2^53, where a detour through float64 loses the last bit
+		c02TsBase = rapid.SampledFrom([]int64{100, 100, 100, -2, 0, 1<<53 - 3}).Draw(t, "tsbase")
 		evs := make([]*mocrelay.Event, 4)
 		for i := range evs {
 			evs[i] = c02Event(t, fmt.Sprintf("e%d.", i), authors)
@@ -110,9 +112,26 @@ func TestC02Match(t *testing.T) {
 		}
 
 		nontrivial := false
+		// the filters as the matcher gets them: the values themselves, or (one case in three)
+		// decoded from their JSON text as a client would send them; the oracle keeps the values
+		real := fs
+		if len(fs) > 0 && rapid.IntRange(0, 2).Draw(t, "viatext") == 0 {
+			real = make([]*mocrelay.ReqFilter, len(fs))
+			for i, f := range fs {
+				var back mocrelay.ReqFilter
+				if err := json.Unmarshal([]byte(gen.Render(gen.FilterDoc(f), nil)), &back); err != nil {
+					real = fs // not a text the decoder takes: nothing claimed here
+					break
+				}
+				real[i] = &back
+			}
+			if len(real) > 0 && real[0] != fs[0] {
+				col.Label("filters:via-json-text")
+			}
+		}
 		// pairs
-		for _, f := range fs {
-			m := mocrelay.NewReqFilterMatcher(f)
+		for fi, f := range fs {
+			m := mocrelay.NewReqFilterMatcher(real[fi])
 			for _, e := range evs {
 				want := gen.MatchFilter(e, f)
 				got := m.Match(e)
@@ -133,7 +152,7 @@ func TestC02Match(t *testing.T) {
 			}
 		}
 		// list matcher
-		lm := mocrelay.NewReqFiltersEventLimitMatcher(fs)
+		lm := mocrelay.NewReqFiltersEventLimitMatcher(real)
 		for _, e := range evs {
 			want := gen.MatchAny(e, fs)
 			if got := lm.Match(e); got != want {
@@ -153,7 +172,7 @@ func TestC02Match(t *testing.T) {
 			}
 			return true
 		}
-		lm2 := mocrelay.NewReqFiltersEventLimitMatcher(fs)
+		lm2 := mocrelay.NewReqFiltersEventLimitMatcher(real)
 		var seq []int
 		prevDone := modelDone()
 		if got := lm2.Done(); got != prevDone {
